@@ -165,8 +165,9 @@ def bin_op_cnn(a, b, i_s):
 def bin_op_cnn_walsh(a, b, i_s):
     assert a.shape == b.shape, f"Mismatched shapes: {a.shape}, {b.shape}"
 
-    A = 2 * a - 1  # Convert to {-1, 1}
-    B = 2 * b - 1  # Convert to {-1, 1}
+    # in the dtype of the coefficients: 2 * a - 1 wraps around for unsigned integer inputs
+    A = 2 * a.to(i_s.dtype) - 1  # Convert to {-1, 1}
+    B = 2 * b.to(i_s.dtype) - 1  # Convert to {-1, 1}
 
     r = torch.stack([
         torch.ones_like(A),  # 0: 1
